@@ -159,7 +159,7 @@ def gen_case(rng, i, tier):
         if not alive or not cur_ids:
             break
         prev = cur_ids
-    return {'steps': steps, 'labels': sorted(labels), 'files': (i % 41 == 0)}
+    return {'steps': steps, 'labels': sorted(labels), 'files': (i % 13 == 0)}
 
 
 def fixed_cases(tier):
@@ -354,10 +354,16 @@ def files_check(ctx, case, res, st):
     for i, layer in enumerate(layers):
         if i:
             name += '.l%d' % i
-        fmt = ['yaml', 'json'][i % 2]
-        with open(os.path.join(d, '%s.%s' % (name, fmt)), 'w') as f:
-            f.write(ser.write(fmt, [s['data'] for s in layer], style='quoted' if fmt == 'yaml' else None))
-    r = cli([ctx.bin('bkl'), '-f', 'json', '%s.%s' % (name, ['yaml', 'json'][(len(layers) - 1) % 2])], cwd=d)
+        import random
+        frng = random.Random(json.dumps([s['data'] for s in layer], sort_keys=True) + str(i))
+        docs_ = [s['data'] for s in layer]
+        fmt = frng.choice(['yaml', 'json', 'yml', 'toml'])
+        if fmt == 'toml' and not all(ser.toml_ok(x) for x in docs_):
+            fmt = 'yaml'
+        top = '%s.%s' % (name, fmt)
+        with open(os.path.join(d, top), 'w') as f:
+            f.write(ser.write(fmt, docs_, frng))
+    r = cli([ctx.bin('bkl'), '-f', 'json', top], cwd=d)
     res.execs += 1
     res.labels.add('via:files')
     if r.rc != 0:
